@@ -16,7 +16,7 @@ func init() {
 			return 2
 		}
 		return r.Finish(ev.Coverage{Evaluations: evals, Distinct: nontriv, Exhaustive: true,
-			Rule: "exhaustive product: storage configurations of the configured contract (slots commit#1/ack#1/commit#2/unrelated x values incl. hashes with 1 and 2 leading zero bytes) x {with/without the contract account, with/without a look-alike contract holding the same slots} x two heights with different roots x (head, confirmation delay) on both sides of the bound x every query (kind, sequence, value, height incl. unstored and above head) x 24 proof mutations (incl. a relayer-built storage trie whose root is announced in storage_hash next to the genuine account proof), for the ETH and the BSC client; oracle recomputed from the generator's own tries (address, account fields, slot, value, node sets of the true paths). distinct_nontrivial counts distinct (world, client, setting, query, mutation) cases that are mutated or must be accepted",
+			Rule: "exhaustive product: storage configurations of the configured contract (slots commit#1/ack#1/commit#2/unrelated x values incl. hashes with 1 and 2 leading zero bytes) x {with/without the contract account, with/without a look-alike contract holding the same slots} x two heights with different roots x (head, confirmation delay) on both sides of the bound x every query (kind, sequence in {1, the first sequence whose slot hash starts with a zero byte}, value, height incl. unstored and above head) x 24 proof mutations (incl. a relayer-built storage trie whose root is announced in storage_hash next to the genuine account proof), for the ETH and the BSC client; oracle recomputed from the generator's own tries (address, account fields, slot, value, node sets of the true paths). distinct_nontrivial counts distinct (world, client, setting, query, mutation) cases that are mutated or must be accepted",
 			Bounds: map[string]interface{}{"tier": tier},
 			Assumptions: []string{"keccak/RLP and go-ethereum's trie builder are trusted (the generator builds the tries with it)", "proofs padded with unused extra nodes and proofs with several storage entries are don't-care", "slot derivation keccak(path||208) is the generator's own definition"}})
 	}}
